@@ -33,6 +33,8 @@ pub mod nix {
             /// before a set may be blocked (set_signals: the old set has been unblocked FIRST, otherwise a signal in both
             /// sets would end up unblocked)
             pub uninterp spec fn may_block(s: Set<int>) -> bool;
+            /// may-call side for thread_unblock: which sets may be unblocked (a signal that stays configured never is)
+            pub uninterp spec fn may_unblock(s: Set<int>) -> bool;
             impl SigSet {
                 /// ASSUMED view: the set of signal numbers
                 pub uninterp spec fn view(&self) -> Set<int>;
@@ -40,7 +42,7 @@ pub mod nix {
                 #[verifier::external_body] pub fn add(&mut self, s: Signal) ensures final(self)@ == old(self)@.insert(s.num as int), { unimplemented!() }
                 #[verifier::external_body] pub fn remove(&mut self, s: Signal) ensures final(self)@ == old(self)@.remove(s.num as int), { unimplemented!() }
                 #[verifier::external_body] pub fn thread_block(&self) -> (r: Result<(), Errno>) requires may_block(self@), ensures r is Ok ==> w_thread_blocked(self@), { unimplemented!() }
-                #[verifier::external_body] pub fn thread_unblock(&self) -> (r: Result<(), Errno>) ensures r is Ok ==> w_thread_unblocked(self@), w_thread_unblock_called(self@), { unimplemented!() }
+                #[verifier::external_body] pub fn thread_unblock(&self) -> (r: Result<(), Errno>) requires may_unblock(self@), ensures r is Ok ==> w_thread_unblocked(self@), w_thread_unblock_called(self@), { unimplemented!() }
             }
         }
         pub mod signalfd {
